@@ -1,4 +1,5 @@
-from sock_common import sq, SOCK_ASSUMPTIONS
+import sock_common
+from sock_common import sq, SOCK_ASSUMPTIONS, open_ids
 
 FUNCS = ["p_socket_send", "p_socket_send_to", "p_socket_receive", "p_socket_receive_from", "p_socket_accept", "p_socket_connect",
          "p_socket_io_condition_wait", "p_socket_check_connect_result", "p_socket_new_from_fd", "p_socket_init_once",
@@ -19,6 +20,7 @@ MANIFEST = {
 
 
 def queries(tier):
+    sock_common.TIER = tier
     F = 2 if tier == "quick" else 4
     qs = []
     # end-to-end byte stream over 3 calls
